@@ -170,7 +170,11 @@ fn intervening(rng: &mut Rng, a: &[ReqHeader], b: &[ReqHeader]) -> Vec<Op> {
         12 => vec![Op::Disable, Op::Enable, Op::Connect],
         13 => vec![req(refapp::FUNC_DIRECT_OPERATE, SeqSel::Next, b.to_vec())],
         14 => vec![req(refapp::FUNC_SELECT, SeqSel::Next, b.to_vec())],
-        15 => vec![Op::LinkStatusRequest],
+        15 => vec![if rng.bool() {
+            Op::LinkStatusRequest
+        } else {
+            Op::SetDecodeLevel(rng.chance(1, 4))
+        }],
         _ => {
             // a SELECT that is refused as a whole: the control headers of A or B followed (or preceded) by a header that
             // does not belong in a SELECT - possibly retransmitted
@@ -328,6 +332,7 @@ impl Scenario for SboScenario {
                 script.extend(intervening(rng, &a, &b));
             }
         }
+        crate::verif::props::gen_out::sprinkle_splits(rng, &mut script);
         SoutCase {
             cfg,
             ctrl,
